@@ -30,7 +30,7 @@ const MODE_VALS: &[&str] = &[
 ];
 
 fn number(r: &mut Rng) -> String {
-    match r.below(8) {
+    match r.below(9) {
         0 => format!("{}", r.range(1, 12)),
         1 => format!("{}.{}", r.range(0, 9), r.range(1, 99)),
         2 => format!("{}/{}", r.range(1, 7), r.range(2, 8)),
@@ -38,6 +38,13 @@ fn number(r: &mut Rng) -> String {
         4 => format!("{}-{}", r.range(1, 4), r.range(5, 9)),
         5 => format!("{}", r.range(100, 1000)),
         6 => "a pinch".to_string(),
+        7 if r.chance(1, 2) => match r.below(4) {
+            // spellings a grammar gives no reason to produce: decimal comma, thousands separator,
+            // leading zero, exponent
+            0 | 1 => format!("{},{}", r.range(0, 9), r.range(1, 9)),
+            2 => format!("{}.{:03}", r.range(1, 9), r.range(0, 999)),
+            _ => format!("0{}", r.range(1, 9)),
+        },
         _ => format!("{}", r.range(1, 5) as f64 * 0.25),
     }
 }
@@ -180,6 +187,7 @@ fn meta_line(r: &mut Rng) -> String {
             _ => "4 people".to_string(),
         },
         "tags" => "a, b c, d".to_string(),
+        "locale" => r.pick_str(LOCALES).to_string(),
         "source" | "author" => "Mom <https://mom.example>".to_string(),
         "[mode]" | "[define]" | "[duplicate]" | "[x]" => r.pick(MODE_VALS).to_string(),
         _ => r.pick(WORDS).to_string(),
@@ -187,11 +195,17 @@ fn meta_line(r: &mut Rng) -> String {
     format!(">> {k}: {v}")
 }
 
+const LOCALES: &[&str] = &["de", "es_ES", "fr", "en_US", "de_CH", "pt-BR", "en", "it_IT", "xx", "es_MX"];
+
 fn frontmatter(r: &mut Rng) -> String {
     let mut s = String::from("---\n");
     for _ in 0..r.range(0, 5) {
         let k = *r.pick(META_KEYS);
         let k = k.trim_matches(|c| c == '[' || c == ']');
+        if k == "locale" {
+            s.push_str(&format!("locale: {}\n", r.pick_str(LOCALES)));
+            continue;
+        }
         let v = match r.below(7) {
             0 => "1h 30min".to_string(),
             1 => format!("{}", r.range(1, 90)),
@@ -301,6 +315,7 @@ pub const HANDWRITTEN: &[&str] = &[
 const AISLE_NAMES: &[&str] = &[
     "milk", "butter", "tuna", "chicken of the sea", "potatoes", "a", "b", "é", "crème", "[x]",
     "[", "]", "x]", "[y", "a b", "🍅", "/", "a/", "/b", "-", "",
+    "A", "B", "Milk", "MILK", "Maße", "Masse", "É", "a  b", "a\tb", "ﬁ", "fi",
 ];
 const AISLE_CATS: &[&str] = &[
     "produce", "dairy", "canned goods", "c", "é", "", " spaced ", "a]b", "[", "x y z", "deli",
@@ -374,7 +389,7 @@ pub fn aisle_structured(r: &mut Rng) -> String {
 
 pub const AISLE_ALPHABET: &[&str] = &[
     "[", "]", "|", "/", "\n", " ", "a", "b", "\r\n", "\t", "é", "\u{a0}", "//", "\r", "\u{b}",
-    "\u{85}", "\u{2028}",
+    "\u{85}", "\u{2028}", "A", "\u{feff}", "\u{c}", "É",
 ];
 
 /// Token soup over the format's alphabet
